@@ -30,13 +30,14 @@ Definition representableb (k : nat) (b : list Z) : bool := bytes_eqb (sresize (L
 Definition uval (v : list Z) : Z := fold_right (fun b acc => (b + 256 * acc)%Z) 0%Z v.
 Definition sval (v : list Z) : Z :=
   let u := uval v in
-  if Z.ltb (2 * u) (2 ^ (8 * Z.of_nat (List.length v))) then u else (u - 2 ^ (8 * Z.of_nat (List.length v)))%Z.
+  let w := (256 ^ Z.of_nat (List.length v))%Z in
+  if Z.ltb (2 * u) w then u else (u - w)%Z.
 
 (* every element is a byte *)
 Definition bytes (v : list Z) : Prop := Forall (fun b => (0 <= b < 256)%Z) v.
 
-(* truncation of an integer x to a signed integer of n bytes: the representative of x modulo 2^(8n) in
-   [-2^(8n-1), 2^(8n-1)) *)
+(* truncation of an integer x to a signed integer type of n bytes: the representative of x modulo 256^n in
+   [-256^n / 2, 256^n / 2) *)
 Definition swrap (n : nat) (x : Z) : Z :=
-  let w := (2 ^ (8 * Z.of_nat n))%Z in
+  let w := (256 ^ Z.of_nat n)%Z in
   ((x + w / 2) mod w - w / 2)%Z.
